@@ -28,8 +28,8 @@ RULE = (
     "earlier in the same process; distinct = distinct (text digest, dialect, buggify config, history-prefix digest)."
 )
 TIERS = {
-    "quick": {"runs": 60, "budget_s": 40, "min_runs": 8, "run_timeout_s": 420},
-    "thorough": {"runs": 5000, "budget_s": 800, "min_runs": 100, "run_timeout_s": 900},
+    "quick": {"runs": 60, "budget_s": 40, "min_runs": 4, "run_timeout_s": 420},
+    "thorough": {"runs": 5000, "budget_s": 800, "min_runs": 40, "run_timeout_s": 900},
 }
 COMPONENTS_REAL = [
     "sqlfluff lexer (PyLexer, BlockTracker), Parser/ParseContext, longest_match/next_match/prune_options, grammar simple() caches, dialect modules, templaters (raw, jinja)",
